@@ -151,6 +151,24 @@ func c06Monitor(st *engine.Step) {
 func c06State(st *engine.Step) {
 	w := st.Post
 	s := st.S
+	// a recovery interrupted by a backend failure (evaluated on clones, the model is not involved): whatever else
+	// happens, the password must not have changed while the token that authorised the change is still outstanding
+	if sec := w.Truth.Newest("rtok", U1, false); sec != nil {
+		for _, label := range []string{"db.DelRememberTokens", "db.Save#2", "db.Save"} {
+			cl := w.Clone()
+			s.FaultLabel = label
+			o := flows.Exec(s, cl, flows.RecoverEnd(s, "B3", sec.Val, "Interrupt3d!pw"), "")
+			s.FaultLabel = ""
+			if len(o.FaultFired) == 0 {
+				continue
+			}
+			st.Count(1, "interrupted-recovery")
+			if r := cl.DB.Users[U1]; r.Password != w.DB.Users[U1].Password && r.RecoverSelector != "" {
+				st.Report(engine.Violation{Rule: "C06/recover-token-reusable", Attrs: "fault=" + label,
+					Detail: "a recovery interrupted by a backend failure (" + label + ") changed the password but left its token outstanding: the link can be used again"})
+			}
+		}
+	}
 	for _, pid := range []string{U1} {
 		if w.Truth.Ints["c06:changes:"+pid] == 0 {
 			continue
